@@ -89,6 +89,8 @@ func typeExprs(dialect string, spec *schemahcl.TypeSpec, thorough bool) []hclTyp
 		case reflect.Slice:
 			rec(i+1, append(append([]string{}, args...), `"a"`, `"b c"`))
 			rec(i+1, append(append([]string{}, args...), `"x"`))
+			// member order is part of the type: a list that is not in lexical order
+			rec(i+1, append(append([]string{}, args...), `"write"`, `"read"`, `"exec"`, `"Admin"`))
 		case reflect.String:
 			rec(i+1, append(append([]string{}, args...), `"s"`))
 		case reflect.Bool:
@@ -122,7 +124,7 @@ func c15DBTypes(d string) []string {
 	case "mysql":
 		out := []string{"int", "int unsigned", "bigint", "bigint unsigned", "tinyint", "tinyint(1)", "smallint", "mediumint", "bool", "bit", "bit(8)", "bit(64)", "decimal", "decimal(10)", "decimal(10,2)", "decimal(10,2) unsigned",
 			"float", "double", "double unsigned", "float(10,2)", "char", "char(0)", "char(10)", "varchar(0)", "varchar(255)", "binary", "binary(0)", "binary(16)", "varbinary(0)", "varbinary(32)",
-			"tinytext", "text", "mediumtext", "longtext", "tinyblob", "blob", "mediumblob", "longblob", "json", "date", "year", "enum('a','b c')", "set('x','y')", "geometry", "point", "linestring", "polygon"}
+			"tinytext", "text", "mediumtext", "longtext", "tinyblob", "blob", "mediumblob", "longblob", "json", "date", "year", "enum('a','b c')", "set('x','y')", "enum('b','a','C','c ')", "set('write','read','exec','Admin')", "geometry", "point", "linestring", "polygon"}
 		for _, p := range []string{"", "(0)", "(3)", "(6)"} {
 			out = append(out, "time"+p, "datetime"+p, "timestamp"+p)
 		}
@@ -548,6 +550,19 @@ func c15AttrTables(d *dialectAPI, r *hx.Rand) []*schema.Table {
 		t2.AddIndexes(schema.NewIndex("i_partial").AddColumns(c).AddAttrs(&postgres.IndexPredicate{P: "(c > 0)"}))
 		t2.AddIndexes(schema.NewIndex("i_include").AddColumns(c).AddAttrs(&postgres.IndexInclude{Columns: []*schema.Column{b}}))
 		t2.AddIndexes(schema.NewIndex("i_hash").AddColumns(c).AddAttrs(&postgres.IndexType{T: "HASH"}))
+		// every direction x NULLS ordering of an index part (two of the four are the defaults)
+		for _, desc := range []bool{false, true} {
+			for k, np := range []*postgres.IndexColumnProperty{nil, {NullsFirst: true}, {NullsLast: true}} {
+				p1 := &schema.IndexPart{C: c, Desc: desc}
+				p2 := &schema.IndexPart{C: b, Desc: !desc}
+				if np != nil {
+					p1.Attrs = append(p1.Attrs, &postgres.IndexColumnProperty{NullsFirst: np.NullsFirst, NullsLast: np.NullsLast})
+					p2.Attrs = append(p2.Attrs, &postgres.IndexColumnProperty{NullsFirst: np.NullsFirst, NullsLast: np.NullsLast})
+				}
+				t2.AddIndexes(schema.NewIndex(fmt.Sprintf("i_nulls_%v_%d", desc, k)).AddParts(p1, p2))
+			}
+		}
+		t2.AddIndexes(schema.NewIndex("i_opclass").AddParts(&schema.IndexPart{C: b, Attrs: []schema.Attr{&postgres.IndexOpClass{Name: "text_pattern_ops"}}}))
 	default:
 		t2.AddIndexes(schema.NewIndex("i_partial").AddColumns(c).AddAttrs(&sqlite.IndexPredicate{P: "c > 0"}))
 	}
